@@ -588,6 +588,20 @@ func genUpstream(r *vlib.R, spec polSpec, copts string) string {
 	return strings.Join(parts, ",")
 }
 
+// genUpstreamRecords: now and then the downstream response carries a SECOND OPT record in
+// front of the regular one, with a subnet option and the hop's cookie in it.
+func genUpstreamRecords(r *vlib.R, spec polSpec, copts string) string {
+	up := genUpstream(r, spec, copts)
+	if up != "noopt" && r.Chance(1, 10) {
+		lead := fmt.Sprintf("E1.24.%d.%s", vlib.Pick(r, []int{0, 24}), vlib.Hex(maskBytes(pickV4(r), 24)))
+		if r.Bool() {
+			lead += ",O10.aabbccddeeff0011"
+		}
+		return lead + "+" + up
+	}
+	return up
+}
+
 var uniq int
 
 func next() int { uniq++; return uniq }
@@ -671,7 +685,8 @@ func genPipeCase(r *vlib.R, emit func(string)) int {
 	// cache sizing: omitted (0) / too small values and prefetch > 90 send cache.New
 	// down its "validation failed, using defaults" branch
 	csize := vlib.Pick(r, []int{1024, 1024, 4096, 0, 512, 1023})
-	emit(fmt.Sprintf("pipe new %s %d %d %d", polS, capS, pf, csize))
+	// one case in four takes the server's own route: the configuration as a FILE through config.Load
+	emit(fmt.Sprintf("pipe %s %s %d %d %d", vlib.Pick(r, []string{"new", "new", "new", "load"}), polS, capS, pf, csize))
 	if pf > 90 {
 		pf = 0
 	}
@@ -720,7 +735,7 @@ func genPipeCase(r *vlib.R, emit func(string)) int {
 		// whose negative TTL is the SOA's — scoped all the same when it carries a SCOPE
 		kind := vlib.Pick(r, []string{"a", "a", "a", "a", "a", "nd", "nd", "nx"})
 		emit(fmt.Sprintf("pipe q %s %s %d %s %s %d %s %d %s", s.client, proto,
-			qid, vlib.B(r.Chance(1, 10)), copts, ttl, genUpstream(r, spec, copts), next(), kind))
+			qid, vlib.B(r.Chance(1, 10)), copts, ttl, genUpstreamRecords(r, spec, copts), next(), kind))
 		count++
 	}
 	var qids []int
@@ -939,11 +954,11 @@ func genExhaustive(emit func(string), tier string) {
 // authority echoes the subnet it was sent with a scope at / above / below the source,
 // declares a foreign subnet, or says nothing; the case may end in two concurrent
 // cache-missing clients from different subnets behind a slow authority.
-func genL3Case(r *vlib.R, emit func(string)) int {
+func genL3Case(r *vlib.R, emit func(string), sys string) int {
 	polS := genPolicy(r, r.Chance(7, 8))
 	spec := specFrom(strings.Fields(polS), false)
 	capS := vlib.Pick(r, []int{0, 120, 300, 100000})
-	emit(fmt.Sprintf("l3 new %s %d", polS, capS))
+	emit(fmt.Sprintf("%s new %s %d", sys, polS, capS))
 	fam := 4
 	if r.Chance(1, 2) {
 		fam = 6
@@ -983,9 +998,9 @@ func genL3Case(r *vlib.R, emit func(string)) int {
 	n := 5 + r.Intn(8)
 	for i := 0; i < n; i++ {
 		s := vlib.Pick(r, sites)
-		emit(fmt.Sprintf("l3 q %s %s %s", s.client, genOpts(r, spec, 85, s.ecs, true), decl()))
+		emit(fmt.Sprintf("%s q %s %s %s", sys, s.client, genOpts(r, spec, 85, s.ecs, true), decl()))
 	}
-	if r.Chance(3, 4) {
+	if sys == "l3" && r.Chance(3, 4) {
 		// two cache-missing clients at the same time: same family, SAME forwarded prefix
 		// length (both offer at least the ceiling), different networks — or, now and
 		// then, whatever the option generator makes of the two sites
@@ -1017,12 +1032,15 @@ func gen(r *vlib.R, n int, tier string, emit func(string)) {
 	genExhaustive(emit, tier)
 	for n > 0 {
 		switch k := r.Intn(20); {
-		case k < 9:
+		case k < 8:
 			n -= genEcsCase(r, emit)
-		case k < 18:
+		case k < 17:
 			n -= genPipeCase(r, emit)
+		case k < 19:
+			n -= genL3Case(r, emit, "l3")
 		default:
-			n -= genL3Case(r, emit)
+			// forwarder mode: the same audiences behind an ECS-aware upstream resolver
+			n -= genL3Case(r, emit, "fwd")
 		}
 	}
 }
